@@ -154,7 +154,7 @@ type boundSet struct {
 }
 
 func c01run(r *ev.Run) {
-	sets := []boundSet{{"struct<=2,value<=1", []int{2, 0, 1}}, {"struct<=2,spell<=1", []int{2, 1, 0}}, {"struct<=3", []int{3, 0, 0}}}
+	sets := []boundSet{{"struct<=2,value<=1", []int{2, 0, 1}}, {"struct<=2,spell<=1", []int{2, 1, 0}}, {"struct<=3", []int{3, 0, 0}}, {"struct<=1,spell<=1,value<=1", []int{1, 1, 1}}}
 	if thorough(r) {
 		sets = []boundSet{{"struct<=3,value<=1", []int{3, 0, 1}}, {"struct<=2,spell<=1,value<=1", []int{2, 1, 1}}, {"struct<=1,spell<=2", []int{1, 2, 0}}, {"struct<=2,value<=2", []int{2, 0, 2}}}
 	}
